@@ -78,6 +78,7 @@ func init() {
 		p := c.P
 		c.Explain = "Agreement of the tables the storage codecs are generated from, decided with go/types and SSA: (projection) every partial-decoding projection names each typed field with the CBOR key and (up to one pointer level) the type of the full struct it projects, and the skeleton's key set equals the source's key set; (extractors) projections are mapped one-to-one (the AllMapped result is returned unfiltered) from the fields they claim; (blob-copy) the only extractor that hands out the raw block blob copies it out of database-owned memory; " +
 			"(registry) every concrete Transaction / ClassDefinition / TrieNode type is registered with the encoder exactly once; (sections) index slices are paired with their own section of the blob and only the two section helpers slice it; (codec-agreement) per bucket, the value encoder of every Put and the decoder of every Get in core's accessors belong to one codec family. Not decided: round-trip identity of values, offsets inside the blob, nil-vs-empty."
+		c07DecoderLimits(c)
 		core := p.pkg("core").Types.Scope()
 		disc := p.lookupType("core", "discardedCBOR")
 		// ---- projection ----
@@ -594,5 +595,53 @@ func c07ContentFinalBeforeWrite(c *Ctx) {
 	}
 	if n < 2 {
 		c.und("content-final", "statebackend closures", "", fmt.Sprintf("only %d writeBlockContent sites found", n))
+	}
+}
+
+// c07DecoderLimits: the encoder writes containers of any size, so what the decoder refuses cannot be read back although it
+// was stored without an error. Both container limits of the decoding mode (arrays and maps) are therefore set explicitly, to
+// the same bound, and not below the bound the stored data may already rely on (10 485 760 — lowering it makes values that
+// are on disk unreadable; raising it is fine). Defect F26: only MaxArrayElements was raised, a state update with more than
+// 131 072 entries in one map was written and could never be decoded. Seeded change C07-I lowers both to 1<<17.
+func c07DecoderLimits(c *Ctx) {
+	p := c.P
+	const floor = 10485760
+	f := p.Func("encoder", "", "initEncAndDecModes")
+	if f == nil {
+		c.und("decoder-limits", "encoder.initEncAndDecModes", "", "anchor not found")
+		return
+	}
+	vals := map[string]int64{}
+	found := false
+	allInstrs(f, func(in ssa.Instruction) {
+		st, ok := in.(*ssa.Store)
+		if !ok {
+			return
+		}
+		fa, ok := st.Addr.(*ssa.FieldAddr)
+		if !ok || !strings.HasSuffix(fa.X.Type().String(), "cbor/v2.DecOptions") {
+			return
+		}
+		found = true
+		if k, isK := st.Val.(*ssa.Const); isK && k.Value != nil {
+			vals[fieldName(fa.X.Type(), fa.Field)] = k.Int64()
+		} else {
+			vals[fieldName(fa.X.Type(), fa.Field)] = -1
+		}
+	})
+	if !found {
+		c.und("decoder-limits", "encoder.initEncAndDecModes", p.Pos(fnPos(f)), "the cbor.DecOptions literal was not found")
+		return
+	}
+	for _, fld := range []string{"MaxArrayElements", "MaxMapPairs"} {
+		v, ok := vals[fld]
+		switch {
+		case !ok:
+			c.viol("decoder-limits", "encoder DecOptions."+fld, p.Pos(fnPos(f)), fld+" is left at the library default (131072): larger containers are written by the encoder but cannot be decoded")
+		case v < floor:
+			c.viol("decoder-limits", "encoder DecOptions."+fld, p.Pos(fnPos(f)), fmt.Sprintf("%s = %d is below the bound stored data may rely on (%d): values already on disk become unreadable", fld, v, floor))
+		default:
+			c.ok("decoder-limits", "encoder DecOptions."+fld, p.Pos(fnPos(f)), fmt.Sprintf("%s = %d", fld, v))
+		}
 	}
 }
